@@ -18,6 +18,9 @@ enum Op {
     Rejected,
     /// several LIST / DELETE statements on one direct line, executed left to right
     Seq(Vec<Op>),
+    /// LOAD "F": the file's lines (after the first, separated by U+0001) replace the store, each
+    /// acting as if typed into an empty interpreter
+    Load(Vec<String>),
 }
 
 const REJECTED_FORMS: &[&str] = &["DELETE:LIST", "DELETE :PRINT 1", "IF 1 THEN DELETE ELSE PRINT 1", "DELETE:DELETE 0-", "DELETE:NEW", "IF 0 THEN PRINT 1 ELSE DELETE:PRINT 2"];
@@ -61,6 +64,9 @@ fn parse_op(line: &str) -> Op {
     if REJECTED_FORMS.contains(&line) {
         return Op::Rejected;
     }
+    if line.starts_with("LOAD \"F\"") {
+        return Op::Load(line.split('\u{1}').skip(1).map(|x| x.to_string()).collect());
+    }
     // a numbered line the line buffer refuses (too long as typed, or too long once listed): an
     // error, and the line stored under that number - if any - stays
     if line.len() > 1024 || (line.len() > 400 && line.contains("?:?:?:")) {
@@ -99,7 +105,12 @@ fn check_history(lines: &[String], full_check_numbers: &[u32]) -> Result<bool, (
     let mut nontrivial = false;
     let mut o = Opts::default();
     for (step, l) in lines.iter().enumerate() {
-        term.line(l, &mut o);
+        if let Op::Load(file) = parse_op(l) {
+            o.files.insert("F".to_string(), file.join("\n"));
+            term.line("LOAD \"F\"", &mut o);
+        } else {
+            term.line(l, &mut o);
+        }
         let evs = term.take();
         if let Some(m) = has_panic(&evs) {
             return Err(("panic".into(), m));
@@ -150,6 +161,27 @@ fn check_history(lines: &[String], full_check_numbers: &[u32]) -> Result<bool, (
                     return Err(("list-range".into(), format!("{}: listed {:?}, the statements executed left to right give {:?}; full output {:?}", where_, got, want, flat(&evs))));
                 }
                 nontrivial = true;
+            }
+            Op::Load(file) => {
+                model.clear();
+                for fl in &file {
+                    match parse_op(fl) {
+                        Op::Enter(n, text) if n <= MAXLINE => {
+                            model.insert(n, text);
+                        }
+                        Op::Bare(n) if n <= MAXLINE => {
+                            model.remove(&n);
+                        }
+                        _ if fl.trim().is_empty() => {}
+                        _ => return Err(("harness".into(), format!("{}: unsupported file line {:?}", where_, fl))),
+                    }
+                }
+                if errs_of(&evs) != 0 || !listed(&evs).is_empty() {
+                    return Err(("load-printed-something".into(), format!("{}: {:?}", where_, flat(&evs))));
+                }
+                if file.iter().any(|fl| matches!(parse_op(fl), Op::Bare(_))) {
+                    nontrivial = true;
+                }
             }
             Op::Rejected => {
                 if errs_of(&evs) == 0 || !listed(&evs).is_empty() || evs.len() != 1 {
@@ -328,7 +360,31 @@ fn check_random(t: &mut Tape, ctx: &Ctx) -> Outcome {
         }
     };
     for _ in 0..n {
-        match t.weighted(&[5, 2, 3, 3]) {
+        match t.weighted(&[5, 2, 3, 3, 1]) {
+            4 => {
+                // a file: numbered lines in any order, repeated numbers, bare numbers, blank lines
+                let nf = t.below(9);
+                let mut file = vec![];
+                let mut in_file: Vec<u32> = vec![];
+                for _ in 0..nf {
+                    let k = if !in_file.is_empty() && t.chance(1, 2) { *t.pick(&in_file) } else { pick_num(t, &known).min(MAXLINE) };
+                    match t.below(6) {
+                        0 | 1 => file.push(format!("{}", k)),
+                        2 if t.chance(1, 2) => file.push(String::new()),
+                        _ => {
+                            file.push(format!("{} {}", k, t.pick(&["PRINT 1", "PRINT 2", "REM é x", "GOTO 10", "DATA 1,2"])));
+                            in_file.push(k);
+                        }
+                    }
+                }
+                let mut l = "LOAD \"F\"".to_string();
+                for fl in &file {
+                    l.push('\u{1}');
+                    l.push_str(fl);
+                }
+                lines.push(l);
+                known = in_file;
+            }
             0 => {
                 let k = pick_num(t, &known);
                 let text = t.pick(&["PRINT 1", "PRINT 2", "REM é x", "A=1:B=2", "GOTO 10", "DATA 1,2", "END"]).to_string();
@@ -372,6 +428,52 @@ fn check_random(t: &mut Tape, ctx: &Ctx) -> Outcome {
     }
 }
 
+
+// ------------------------------------------------------------------ stores too big to run
+
+fn gen_oversized(part: usize, parts: usize, _th: bool, emit: &mut dyn FnMut(&str)) {
+    for (i, k) in ["data", "code", "both"].iter().enumerate() {
+        if i % parts == part {
+            emit(k);
+        }
+    }
+}
+
+/// A stored program whose DATA or code exceeds the 64K pools cannot run, but it is still a store:
+/// LIST and DELETE act on it as on any other.
+fn check_oversized(item: &str, _ctx: &Ctx) -> Outcome {
+    let data_line = format!("DATA {}", vec!["1"; 500].join(","));
+    let code_line = vec!["A=1"; 250].join(":");
+    let mut lines: Vec<String> = vec![];
+    let n = 134u32;
+    for i in 0..n {
+        let text = match item {
+            "data" => &data_line,
+            "code" => &code_line,
+            _ => {
+                if i % 2 == 0 {
+                    &data_line
+                } else {
+                    &code_line
+                }
+            }
+        };
+        lines.push(format!("{} {}", (i + 1) * 10, text));
+    }
+    if item == "both" {
+        for i in 0..n {
+            lines.push(format!("{} {}", (n + i + 1) * 10, if i % 2 == 0 { &code_line } else { &data_line }));
+        }
+    }
+    for l in ["LIST -15", "LIST 1330-", "LIST 500-520", "DELETE 30-1300", "LIST", "25", "20", "LIST 10-", "DELETE 1330", "LIST -65529", "15 REM", "LIST 15", "DELETE -15", "LIST"] {
+        lines.push(l.to_string());
+    }
+    match check_history(&lines, &[10, 20, 1330, 1340]) {
+        Ok(_) => Outcome::pass(true, hash_str(item)).with_case(format!("{} lines of 1000 bytes ({}), then LIST/DELETE ranges and bare numbers", lines.len() - 14, item)),
+        Err((c, d)) => Outcome::fail(&c, d, format!("{} x ~1000-byte lines ({}) + range statements", lines.len() - 14, item)),
+    }
+}
+
 pub fn property() -> Property {
     Property {
         id: "C15",
@@ -383,6 +485,7 @@ Non-trivial: a range endpoint that is not an existing line, or an operation on l
         subs: vec![
             Sub::items("exhaustive_universe5", gen_small, check_item, true),
             Sub::items("exhaustive_universe3", gen_small3, check_item, true),
+            Sub::items("oversized_store", gen_oversized, check_oversized, false).wedge(300),
             Sub::tape("random_histories", check_random, 100_000, 3_000_000, 600),
         ],
     }
